@@ -135,7 +135,7 @@ class Ctx:
             level = "exploration"
         ev = dict(property_id=self.pid, tier=self.tier, seed=self.seed, level=level, coverage=cov,
                   assumptions=self.assumptions, wall_s=round(wall, 2), violations=len(self.violations))
-        if rc != 2 and not getattr(self, 'is_replay', False):
+        if rc != 2 and not getattr(self, 'is_replay', False) and not os.environ.get('VERIF_NO_EVIDENCE'):
             json.dump(ev, open(os.path.join(EVID, self.pid + ".json"), "w"), indent=1, default=str)
         print("%s tier=%s seed=%d: states=%d transitions=%d traces_ok=%d/%d evaluations=%d nontrivial=%d violations=%d known=%d wall=%.1fs rc=%d"
               % (self.pid, self.tier, self.seed, self.states, self.transitions, self.traces_ok, self.traces_total,
